@@ -156,6 +156,7 @@ def step (_ : Unit) (toks : List String) : Unit × String :=
     let o := (ws.map parseWrite).foldl (fun (o : Overlay) w => if w.2.isEmpty then o.delete w.1 else o.put w.1 w.2) {}
     ((), showRes o.mem.ents)
   | "txs" :: ts => ((), showRes (runBlock {} (parseTxs ts)).mem.ents)
+  | "blk" :: ts => ((), showRes (runBlock {} (parseTxs ts)).mem.ents)
   | _ => ((), "bad-op")
 
 end DigestDrv
@@ -195,6 +196,7 @@ def main (args : List String) : IO Unit :=
   | ["memdb"] => Proto.run ({} : MemdbDrv.St) MemdbDrv.step
   | ["layers"] => Proto.run ({} : LayersDrv.St) LayersDrv.step
   | ["digest"] => Proto.run () DigestDrv.step
+  | ["blockdigest"] => Proto.run () DigestDrv.step
   | ["incval"] => Proto.run ({} : Poly.Model.IncVal.IncVal) IncValDrv.step
   | ["stateful"] => Proto.run ([] : List Nat) IncValDrv.stepStateful
   | _ => IO.eprintln "usage: drv_kv <family>"
